@@ -13,6 +13,7 @@ package libp2pwebtransport
 
 //@ func (l *listener) httpHandlerWithConnScope
 //@ prop C10
+//@ inline handshake
 //@ ensures result == nil ==> sent(l.queue) > 0
 //@ ensures sent(l.queue) > 0 && old(l.transport.gater) != nil ==> called(InterceptSecured, 0) && ret(InterceptSecured, 0, 0) &&
 //@         arg(InterceptSecured, 0, 1) == network.DirInbound && arg(InterceptSecured, 0, 2) == sconn.RemotePeer() && arg(InterceptSecured, 0, 3) == sconn
